@@ -34,6 +34,19 @@ var (
 	InternalInconsistency = ErrInternalInconsistency
 )
 
+// errUnexpectedOK is reported when a server answers SSH_FX_OK to a request whose successful reply
+// must carry data (attributes, a handle, a name): there is nothing to return, and returning
+// (nil, nil) would make callers dereference a nil value.
+var errUnexpectedOK = errors.New("sftp: unexpected SSH_FX_OK status in reply to a request that returns data")
+
+// statusOrUnexpectedOK converts a status reply into an error, never nil.
+func statusOrUnexpectedOK(id uint32, data []byte) error {
+	if err := normaliseError(unmarshalStatus(id, data)); err != nil {
+		return err
+	}
+	return errUnexpectedOK
+}
+
 // A ClientOption is a function which applies configuration to a Client.
 type ClientOption func(*Client) error
 
@@ -460,7 +473,7 @@ func (c *Client) opendir(ctx context.Context, path string) (string, error) {
 		}
 		return handle, nil
 	case sshFxpStatus:
-		return "", normaliseError(unmarshalStatus(id, data))
+		return "", statusOrUnexpectedOK(id, data)
 	default:
 		return "", unimplementedPacketErr(typ)
 	}
@@ -500,7 +513,7 @@ func (c *Client) Lstat(p string) (os.FileInfo, error) {
 		}
 		return fileInfoFromStat(attr, path.Base(p)), nil
 	case sshFxpStatus:
-		return nil, normaliseError(unmarshalStatus(id, data))
+		return nil, statusOrUnexpectedOK(id, data)
 	default:
 		return nil, unimplementedPacketErr(typ)
 	}
@@ -535,7 +548,7 @@ func (c *Client) ReadLink(p string) (string, error) {
 		}
 		return filename, nil
 	case sshFxpStatus:
-		return "", normaliseError(unmarshalStatus(id, data))
+		return "", statusOrUnexpectedOK(id, data)
 	default:
 		return "", unimplementedPacketErr(typ)
 	}
@@ -705,7 +718,7 @@ func (c *Client) open(path string, pflags uint32) (*File, error) {
 		}
 		return &File{c: c, path: path, handle: handle}, nil
 	case sshFxpStatus:
-		return nil, normaliseError(unmarshalStatus(id, data))
+		return nil, statusOrUnexpectedOK(id, data)
 	default:
 		return nil, unimplementedPacketErr(typ)
 	}
@@ -749,7 +762,7 @@ func (c *Client) stat(path string) (*FileStat, error) {
 		attr, _, err := unmarshalAttrs(data)
 		return attr, err
 	case sshFxpStatus:
-		return nil, normaliseError(unmarshalStatus(id, data))
+		return nil, statusOrUnexpectedOK(id, data)
 	default:
 		return nil, unimplementedPacketErr(typ)
 	}
@@ -773,7 +786,7 @@ func (c *Client) fstat(handle string) (*FileStat, error) {
 		attr, _, err := unmarshalAttrs(data)
 		return attr, err
 	case sshFxpStatus:
-		return nil, normaliseError(unmarshalStatus(id, data))
+		return nil, statusOrUnexpectedOK(id, data)
 	default:
 		return nil, unimplementedPacketErr(typ)
 	}
@@ -807,7 +820,7 @@ func (c *Client) StatVFS(path string) (*StatVFS, error) {
 
 	// the resquest failed
 	case sshFxpStatus:
-		return nil, normaliseError(unmarshalStatus(id, data))
+		return nil, statusOrUnexpectedOK(id, data)
 
 	default:
 		return nil, unimplementedPacketErr(typ)
@@ -980,7 +993,7 @@ func (c *Client) RealPath(path string) (string, error) {
 		}
 		return filename, nil
 	case sshFxpStatus:
-		return "", normaliseError(unmarshalStatus(id, data))
+		return "", statusOrUnexpectedOK(id, data)
 	default:
 		return "", unimplementedPacketErr(typ)
 	}
